@@ -121,6 +121,12 @@ def main (argv=None):
       for f in futs:
         results.append(f.result())
 
+  if os.environ.get("PVM_TIMING"):
+    for r in sorted(results, key=lambda r: -r.get("wall", 0))[:12]:
+      print("  shard %d %s %.1fs %s" % (r["idx"], r["status"], r.get("wall", 0),
+            json.dumps({k: v for k, v in specs[r["idx"]].items()
+                        if k not in ("tier", "seed", "nshards")})[:160]))
+
   # ---- merge ----
   evaluations = 0
   hashes = set()
